@@ -70,7 +70,9 @@ func NewPriorityPolicy(stats tally.Scope, priorityPolicy string) (*PriorityPolic
 func (p *PriorityPolicy) SortPeers(source *core.PeerInfo, peers []*core.PeerInfo) []*core.PeerInfo {
 	peerPriorities := make([]*peerPriorityInfo, 0, len(peers))
 	for _, peer := range peers {
-		if peer == source {
+		if peer.PeerID == source.PeerID {
+			// Compare by peer id: lists read from a peer store never hold the
+			// source's own *core.PeerInfo pointer.
 			continue
 		}
 		priority, label := p.policy.assignPriority(peer)
